@@ -18,6 +18,11 @@ FIELDS = [['matches'], ['matches', 0], ['matches', 0, 'offset'], ['matches', 0, 
           ['matches', 0, 'rule', 'category'], ['matches', 0, 'rule', 'category', 'name'], ['matches', 0, 'rule', 'subId'],
           ['matches', 0, 'rule', 'urls'], ['matches', 0, 'rule', 'urls', 0], ['matches', 0, 'rule', 'urls', 0, 'value']]
 TYPES = [None, True, 'x', 3, 1.5, [], {}, [1], {'a': 1}]
+# perturbations of string values: line breaks, markup, an unpaired surrogate (valid JSON "\\ud800"), empty, long
+STRINGS = ['a\nb', 'a\r\nb\n', '<b>"&', '\ud800', 'x\udfffy', '', 'Ä' * 300, 'a\tb', '\x00', '\u2028']
+STRING_FIELDS = [['matches', 0, 'message'], ['matches', 0, 'context', 'text'], ['matches', 0, 'replacements', 0, 'value'],
+                 ['matches', 0, 'rule', 'id'], ['matches', 0, 'rule', 'subId'], ['matches', 0, 'rule', 'category', 'name'],
+                 ['matches', 0, 'rule', 'urls', 0, 'value']]
 VALUES = [None, True, 'x', 3, -1, 1.5, [], {}, [1], {'a': 1}, 10 ** 30, -10 ** 30, 10 ** 5]
 
 def gen_cases(ctx):
@@ -53,6 +58,16 @@ def gen_cases(ctx):
                     add(DOCS[0], mode, {'frac_spans': [(0.3, 2)], 'mutations': [{'op': 'set', 'path': path, 'value': val}]}, 'mutate:type')
         for mode in MODES:
             add(DOCS[0], mode, {'frac_spans': [(0.3, 2)], 'mutations': [{'op': 'del', 'path': path}]}, 'mutate:del')
+    # every string field x hostile string values x every output mode
+    for path in STRING_FIELDS:
+        for val in STRINGS:
+            for mode in MODES:
+                if ctx.tier == 'thorough' or rng.random() < 0.5:
+                    add(DOCS[2], mode, {'frac_spans': [(0.3, 2)], 'mutations': [{'op': 'set', 'path': path, 'value': val}]}, 'mutate:string')
+    # byte truncation inside a multi-byte character (the answer is sent as UTF-8, not ASCII-escaped)
+    for mode in MODES:
+        for k in range(ctx.scale(6, 60)):
+            add(DOCS[2], mode, {'frac_spans': [(0.0, 3)], 'ascii': False, 'message': 'Ää€𝄞 ' * 3, 'truncate': rng.random()}, 'truncate:utf8')
     # every numeric field set to huge / negative values
     for path in [p for p in FIELDS if p[-1] in ('offset', 'length')]:
         for val in (10 ** 30, -10 ** 30, -1, 10 ** 5):
@@ -90,12 +105,13 @@ def locations(case, r):
             if not (isinstance(o, int) and isinstance(n, int) and 0 <= o < len(doc) and 0 <= o + n <= len(doc)):
                 probs.append('json report: offset %r, length %r outside the file of %d characters' % (o, n, len(doc)))
     elif mode in ('xml', 'xml-b'):
-        try:
-            root = ET.fromstring(out)
-        except Exception:
-            return ['xml report is not well-formed: %r' % out[:80]]
-        for e in root:
-            fy, fx, ty, tx = (int(e.get(k)) for k in ('fromy', 'fromx', 'toy', 'tox'))
+        # the locations are read with a regular expression: a string of the answer may hold characters that XML
+        # cannot represent at all (NUL, unpaired surrogates); whether the report is well-formed XML then is not C15's subject
+        locs = re.findall(r'<error fromy="(-?\d+)" fromx="(-?\d+)" toy="(-?\d+)" tox="(-?\d+)"', out)
+        if out.count('<error ') != len(locs):
+            return ['%s report: %d <error> elements, %d with readable locations' % (mode, out.count('<error '), len(locs))]
+        for loc in locs:
+            fy, fx, ty, tx = (int(v) for v in loc)
             def ok(y, x):
                 if not (0 <= y < nl):
                     return False
